@@ -82,7 +82,9 @@ class Modes(Stage):
                 if shown != case['nmsg']:
                     res.bad('file-mode-message-lines', '%d message lines shown for %d in the stream' % (shown, case['nmsg']))
                 others = [l for l in _re.split(r'[\r\n]', case['text'])]
-                nother = len([l for l in case['text'].replace('\r', '\n').split('\n')[:-1 if case['text'].endswith('\n') else None]]) - case['nmsg']
+                # universal newlines: \r\n is one line end, a bare \r or \n is one each
+                parts = _re.split(r'\r\n|\r|\n', case['text'])
+                nother = len(parts[:-1] if parts[-1] == '' else parts) - case['nmsg']
                 passed = len(_re.findall(rb'^       \|  ', out_f, _re.M))
                 if not case.get('supress') and passed != nother:
                     res.bad('file-mode-passthrough-lines', '%d lines passed through, %d non-message lines in the stream' % (passed, nother))
